@@ -23,7 +23,7 @@ import sys
 import zipfile
 import zlib
 
-SYNTH_DIR = "/tmp/c06_synth_v3"
+SYNTH_DIR = "/tmp/c06_synth_v4"
 
 WORKER = r'''
 import sys, io, json, glob, hashlib, logging, dataclasses, os
@@ -156,7 +156,7 @@ def blob_pool():
     return pool
 
 
-def odt_with_styles(names):
+def odt_with_styles(names, extra_body="", only_body=None):
     ns = ('xmlns:office="urn:oasis:names:tc:opendocument:xmlns:office:1.0" xmlns:style="urn:oasis:names:tc:opendocument:xmlns:style:1.0" '
           'xmlns:text="urn:oasis:names:tc:opendocument:xmlns:text:1.0" xmlns:table="urn:oasis:names:tc:opendocument:xmlns:table:1.0" '
           'xmlns:draw="urn:oasis:names:tc:opendocument:xmlns:drawing:1.0" xmlns:fo="urn:oasis:names:tc:opendocument:xmlns:xsl-fo-compatible:1.0" '
@@ -167,6 +167,16 @@ def odt_with_styles(names):
     auto = "".join(f'<style:style style:name="{esc(n)}" style:family="paragraph"/>' for n in names[:half + 3])
     common = "".join(f'<style:style style:name="{esc(n)}" style:family="paragraph"/>' for n in names[half:])
     body = "".join(f'<text:p text:style-name="{esc(n)}">paragraph {i}</text:p>' for i, n in enumerate(names[:6]))
+    frame = ('<draw:frame draw:name="pic{0}" svg:width="2cm" svg:height="1cm"><draw:image xlink:href="Pictures/none{0}.png"/>'
+             '<svg:title>frame title {0}</svg:title><svg:desc>frame description {0}</svg:desc></draw:frame>')
+    # a picture inside running text, a hyperlink wrapped around a picture, a text box with a caption -- twice, in both orders
+    for k in (1, 2):
+        body += f'<text:p>inline picture {k}: {frame.format(k)} after it</text:p>'
+        body += f'<text:p>linked picture {k}: <text:a xlink:href="https://example.org/{k}">{frame.format(10 + k)}</text:a> and a plain <text:a xlink:href="https://example.org/p{k}">link {k}</text:a></text:p>'
+        body += (f'<text:p><draw:frame draw:name="box{k}"><draw:text-box><text:p>caption in a text box {k}</text:p></draw:text-box></draw:frame></text:p>')
+    body += extra_body
+    if only_body is not None:
+        body = only_body
     content = (f'<?xml version="1.0" encoding="UTF-8"?><office:document-content {ns} office:version="1.2"><office:automatic-styles>{auto}'
                f'</office:automatic-styles><office:body><office:text>{body}</office:text></office:body></office:document-content>')
     styles = (f'<?xml version="1.0" encoding="UTF-8"?><office:document-styles {ns} office:version="1.2"><office:styles>{common}</office:styles>'
@@ -206,8 +216,15 @@ def docx_with_styles(names):
              '<Relationship Id="rId1" Type="http://schemas.openxmlformats.org/officeDocument/2006/relationships/styles" Target="styles.xml"/>' +
              "".join(f'<Relationship Id="rL{k}" Type="http://schemas.openxmlformats.org/officeDocument/2006/relationships/hyperlink" Target="{u}" TargetMode="External"/>'
                      for k, (_t, u) in enumerate(links)) + '</Relationships>')
+    # parts that are in the package but not referenced from document.xml.rels (producers leave them behind): several of each kind
+    def hf(kind, text):
+        tagname = "hdr" if kind == "header" else "ftr"
+        return f'<?xml version="1.0" encoding="UTF-8" standalone="yes"?><w:{tagname} {w}><w:p><w:r><w:t>{text}</w:t></w:r></w:p></w:{tagname}>'.encode()
+    orphans = [(f"word/{kind}{k}.xml", hf(kind, f"orphan {kind} {k}")) for kind in ("header", "footer") for k in (3, 4, 5, 6, 7)]
+    orphans += [(f"word/media/orphan{k}.png", png(2 + k, 3)) for k in (1, 2, 3)]
+    orphans += [(f"customXml/item{k}.xml", f'<?xml version="1.0"?><item n="{k}"/>'.encode()) for k in (1, 2, 3)]
     return _zip([("[Content_Types].xml", ct.encode()), ("_rels/.rels", rels.encode()), ("word/document.xml", doc.encode()),
-                 ("word/styles.xml", styles.encode()), ("word/_rels/document.xml.rels", drels.encode())])
+                 ("word/styles.xml", styles.encode()), ("word/_rels/document.xml.rels", drels.encode())] + orphans)
 
 
 def _zip(members):
@@ -241,11 +258,64 @@ MBOX = (b"From alice@example.com Mon Jan 06 10:00:00 2025\nFrom: alice@example.c
 EML = b"From: dave@example.com\nSubject: bare message without Message-ID, Date, To\nMIME-Version: 1.0\nContent-Type: text/plain\n\nbody\n"
 
 
+CORE_NS = ('xmlns:cp="http://schemas.openxmlformats.org/package/2006/metadata/core-properties" xmlns:dc="http://purl.org/dc/elements/1.1/" '
+           'xmlns:dcterms="http://purl.org/dc/terms/" xmlns:dcmitype="http://purl.org/dc/dcmitype/" xmlns:xsi="http://www.w3.org/2001/XMLSchema-instance"')
+W3C = 'xsi:type="dcterms:W3CDTF"'
+CORE_VARIANTS = {
+    # optional properties partly absent: the places where a library substitutes defaults (openpyxl: now() for missing dates)
+    "people_only": "<dc:creator>Ann</dc:creator><cp:lastModifiedBy>Bob</cp:lastModifiedBy><cp:revision>3</cp:revision>",
+    "created_only": f"<dc:creator>Ann</dc:creator><cp:lastModifiedBy>Bob</cp:lastModifiedBy><dcterms:created {W3C}>2020-01-02T03:04:05Z</dcterms:created>",
+    "modified_only": f"<dc:title>t</dc:title><dcterms:modified {W3C}>2021-02-03T04:05:06Z</dcterms:modified><cp:lastPrinted>2019-01-01T00:00:00Z</cp:lastPrinted>",
+    "foreign_dates": ('<dc:creator>Ann</dc:creator><x:created xmlns:x="urn:example:other">2020-01-02T03:04:05Z</x:created>'
+                      '<x:dateModified xmlns:x="urn:example:other">2020-01-02T03:04:05Z</x:dateModified><cp:contentStatus>created and modified</cp:contentStatus>'),
+    "empty": "",
+}
+
+
+def core_xml(inner):
+    return f'<?xml version="1.0" encoding="UTF-8" standalone="yes"?><cp:coreProperties {CORE_NS}>{inner}</cp:coreProperties>'.encode()
+
+
+def with_part(container, name, data):
+    """Copy of a zip container with one part replaced / added (data=None: removed)."""
+    src = zipfile.ZipFile(io.BytesIO(container))
+    members, seen = [], False
+    for zi in src.infolist():
+        if zi.filename == name:
+            seen = True
+            if data is not None:
+                members.append((name, data, zi.compress_type))
+            continue
+        members.append((zi.filename, src.read(zi.filename), zi.compress_type))
+    if not seen and data is not None:
+        members.append((name, data))
+    return _zip(members)
+
+
+TRACKED_ONLY = ('<text:tracked-changes><text:changed-region text:id="ct1"><text:deletion><office:change-info><dc:creator>x</dc:creator>'
+                '<dc:date>2020-01-01T00:00:00</dc:date></office:change-info><text:p>deleted paragraph one</text:p><text:p>deleted paragraph two</text:p>'
+                '</text:deletion></text:changed-region></text:tracked-changes><text:p><text:change text:change-id="ct1"/></text:p>')
+
+
 def synth_corpus(repo):
     """{file name: bytes}; deterministic."""
     out = {"c06_style_names.odt": odt_with_styles(NAME_POOL), "c06_style_names.docx": docx_with_styles(NAME_POOL),
-           "c06_missing_headers.mbox": MBOX, "c06_missing_headers.eml": EML}
+           "c06_missing_headers.mbox": MBOX, "c06_missing_headers.eml": EML,
+           # documents without live text: the "nothing found" branches of observers (fallbacks, defaults)
+           "c06_tracked_changes_only.odt": odt_with_styles(NAME_POOL[:2], only_body=TRACKED_ONLY),
+           "c06_whitespace_only.odt": odt_with_styles(NAME_POOL[:2], only_body="<text:p> </text:p><text:p><text:s text:c=\"3\"/></text:p>"),
+           "c06_no_body_text.odt": odt_with_styles(NAME_POOL[:2], only_body="")}
     res = os.path.join(repo, "sharepoint2text/tests/resources")
+    for fixture, tag in (("modern_ms/mwe.xlsx", "xlsx"), ("modern_ms/headings.docx", "docx"), ("modern_ms/pptx_table.pptx", "pptx")):
+        try:
+            raw = open(os.path.join(res, fixture), "rb").read()
+        except OSError:
+            continue
+        variants = CORE_VARIANTS if tag == "xlsx" else {"people_only": CORE_VARIANTS["people_only"]}
+        for vname, inner in variants.items():
+            out[f"c06_core_{vname}.{tag}"] = with_part(raw, "docProps/core.xml", core_xml(inner))
+        if tag == "xlsx":
+            out["c06_core_absent.xlsx"] = with_part(raw, "docProps/core.xml", None)
     # optional fields absent / trailing padding: the places where defaults (now(), generated ids) and "repairs" of the input creep in
     try:
         pdfs = sorted((os.path.getsize(p), p) for p in (os.path.join(res, "pdf", f) for f in os.listdir(os.path.join(res, "pdf"))) if p.endswith(".pdf"))
@@ -395,7 +465,7 @@ def stream_search(repo, hint):
         elif r != ref:
             return {"reproduced": True, "target": f"{hint['file']}::{q}", "inputs": {"payload": payload.hex(), "cursor": pos},
                     "expected": f"same result as with the cursor at 0: {str(ref)[:60]!r}", "observed": f"{str(r)[:60]!r}"}
-        if b.tell() != pos:
+        if hint.get("check_cursor") and b.tell() != pos:
             return {"reproduced": True, "target": f"{hint['file']}::{q}", "inputs": {"payload": payload.hex(), "cursor": pos},
                     "expected": f"cursor restored to {pos}", "observed": f"cursor at {b.tell()}"}
     return None
@@ -474,7 +544,8 @@ def find(req):
     if not hint and "::" in (req.get("function") or ""):
         # obligation of a deductively verified function (contracts/C06.py::contracts): search at function level first
         rel, q = req["function"].split("::", 1)
-        hint = {"kind": "stream", "file": rel, "function": q}
+        # (restoring the cursor is only required where the obligation says so)
+        hint = {"kind": "stream", "file": rel, "function": q, "check_cursor": "position-restored" in (req.get("obligation") or "")}
     kind = hint.get("kind")
     if kind == "stream":
         r = stream_search(repo, hint)
